@@ -10,7 +10,7 @@ import inspect
 import textwrap
 import types
 import z3
-from .sym import SInt, ZInt, SBool, Unsupported
+from .sym import STable, SInt, ZInt, SBool, Unsupported
 from .sbytes import SBytes, SStr
 
 
@@ -200,6 +200,17 @@ def vfstr(parts):
             out = out + SStr.lift(vfmt("%d", val))
         elif isinstance(val, (SInt, ZInt)) and conv == -1 and len(spec) == 3 and spec[0] == "0" and spec[1].isdigit() and spec[2] == "d":
             out = out + SStr.lift(vfmt("%" + spec, val))
+        elif isinstance(val, SInt) and conv == -1 and len(spec) >= 3 and spec[0] == "0" and spec[1:-1].isdigit() and spec[-1] in "xX":
+            n = int(spec[1:-1])
+            if val.w > 4 * n:
+                raise Unsupported("hex field narrower than the value")
+            e = val.ext(4 * n)
+            tab = STable(list(b"0123456789abcdef" if spec[-1] == "x" else b"0123456789ABCDEF"), "hexfmt." + spec[-1], 8)
+            cells = []
+            for k in range(n - 1, -1, -1):
+                d = tab[SInt(z3.simplify(z3.Extract(4 * k + 3, 4 * k, e)), 4)]
+                cells.append(chr(d) if isinstance(d, int) else (chr(d.concrete()) if d.concrete() is not None else z3.ZeroExt(13, d.e)))
+            out = out + SStr(cells, [1] * n)
         elif isinstance(val, (SInt, ZInt, SStr, SBytes)) and conv == 114:
             out = out + "<symbolic value>"          # {x!r}: diagnostics only
         elif isinstance(val, (SInt, ZInt, SStr, SBytes)):
